@@ -571,6 +571,11 @@ def replay(path):
             return 2
         finally:
             ws.cleanup()
+    if doc.get("engine") == "kani" and tests and not doc.get("replayable_natively", True):
+        log(f"replay file {path}: the counterexample of obligation {doc['obligation']} was found in a harness that models part of the "
+            f"environment (stubs / C model), so it cannot be executed natively; Kani's concrete values are in the file. "
+            f"Re-running the deciding check on the current tree instead:")
+        return decide(prop, "quick", 0)
     if doc.get("engine") != "kani" or not tests:
         log(f"replay file {path}: no concrete input recorded for obligation {doc['obligation']}; "
             f"verifier output follows")
